@@ -467,7 +467,7 @@ theorem random_full_at_density_one (dflt : Int) (m : Nat) : ∀ (d : Nat) (shape
                 show allPoints ns = []
                 rw [← hpts]
                 unfold points
-                rw [content_eq_nil_of_isEmpty dflt (d + 1) t' hemp]; rfl
+                rw [cv_content_eq_nil_of_isEmpty dflt (d + 1) t' hemp]; rfl
               · rw [if_neg hemp]; exact hpts
             · exact absurd hu hnu)
           (List.range n) s s' (asList t) hI h
@@ -539,7 +539,7 @@ example : content (7 : Int) 1 (fromUncompressed 7 0 exLeaf) = [([1], 0), ([2], 1
 -- completeness: a hand-written tree satisfying the three facts
 def exTreeN : Tree Nat Int 2 := ([(0, ([(0, (1 : Int))] : List (Nat × Int)))] : List (Nat × List (Nat × Int)))
 example : exTreeN = fromUncompressed 0 1 exNest :=
-  fromUncompressed_complete 0 1 exNest exTreeN ((wfB_iff 2 exTreeN).1 (by decide)) (by decide) (by decide)
+  fromUncompressed_complete 0 1 exNest exTreeN ((cv_wfB_iff 2 exTreeN).1 (by decide)) (by decide) (by decide)
 -- shape theorems: rectangular, positive dimensions, (not) all default
 example : rectB 2 [2, 2] exNest = true ∧ (∀ k ∈ [2, 2], 0 < k) ∧ allDefault (0 : Int) 2 exNest = false :=
   ⟨by decide, by decide, by decide⟩
@@ -557,13 +557,13 @@ example : uncompress (0 : Int) 1 [2, 2] (fromUncompressed 0 1 exZero) = none :=
   uncompress_fromUncompressed_allDefault_fails 0 1 [2, 2] exZero (by decide) (by decide) (by decide)
 
 -- §3: a rank-2 tensor with an explicit default and an empty sub-fiber, plain coordinates
-def exTree : Tree YCoord Int 2 :=
+def cv_exTree : Tree YCoord Int 2 :=
   ([(YCoord.int 0, ([(YCoord.int 1, (0 : Int)), (YCoord.int 2, 5)] : List (YCoord × Int))),
     (YCoord.int 3, ([] : List (YCoord × Int)))] : List (YCoord × List (YCoord × Int)))
 def exRep : TRep YCoord Int 2 :=
-  { rankIds := ["A", "B"], shape := [YCoord.int 4, YCoord.int 3], name := "T", root := exTree }
+  { rankIds := ["A", "B"], shape := [YCoord.int 4, YCoord.int 3], name := "T", root := cv_exTree }
 example : allCoords YCoord.plain 2 exRep.root = true ∧ exRep.shape.all YCoord.plain = true := ⟨by decide, by decide⟩
-example : ∃ r, tensorYamlRoundtrip YCoord.plain exRep = some r ∧ r.root = exTree ∧ r.name = "" := by
+example : ∃ r, tensorYamlRoundtrip YCoord.plain exRep = some r ∧ r.root = cv_exTree ∧ r.name = "" := by
   obtain ⟨r, h, _, _, hroot, hname, _⟩ := tensor_yaml_roundtrip_partial YCoord.plain (0 : Int) exRep (by decide) (by decide)
   exact ⟨r, h, hroot, by simpa using hname⟩
 /-- a flattened tensor: tuple coordinates -/
